@@ -589,7 +589,10 @@ func runOne(src []byte, E, B int64, wantExplain bool) (status string, tokens, st
 		return "err", tokens, steps, "", ""
 	}
 	// C03: err == nil => usable AST (nesting capped at 1000 as in the property)
-	if maxNesting(src) > 1000 || bytes.Count(src, []byte("CASE")) > 1000 || bytes.Count(src, []byte("SELECT")) > 1000 {
+	// (prefix-operator and left-deep operator chains nest without brackets: EXPLAIN text is quadratic in the nesting depth by its
+	// format, a 30000-deep `- - - x` chain prints gigabytes of indentation)
+	if maxNesting(src) > 1000 || bytes.Count(src, []byte("CASE")) > 1000 || bytes.Count(src, []byte("SELECT")) > 1000 ||
+		bytes.Count(src, []byte("NOT ")) > 1000 || bytes.Count(src, []byte("- ")) > 1000 || bytes.Count(src, []byte(" + ")) > 1000 {
 		return "ok", tokens, steps, "deep", ""
 	}
 	var sb strings.Builder
